@@ -41,7 +41,8 @@ Definition set_flag (q : quirks) (i : N) (b : bool) : quirks :=
      q_builder_template := if (i =? 9)%N then b else q_builder_template q;
      q_topic_index := if (i =? 10)%N then b else q_topic_index q;
      q_flow_namespace := if (i =? 11)%N then b else q_flow_namespace q;
-     q_stream_compress := if (i =? 12)%N then b else q_stream_compress q |}.
+     q_stream_compress := if (i =? 12)%N then b else q_stream_compress q;
+     q_mqtt_rules := if (i =? 13)%N then b else q_mqtt_rules q |}.
 
 (** the run-time flags switched off *)
 Definition rt_off (q : quirks) : quirks := set_flag (set_flag (set_flag q 1 false) 6 false) 12 false.
@@ -82,7 +83,7 @@ Fixpoint first_flag (c : spec_case) (pinned : quirks) (is : list N) : N :=
   | i :: t => if flag pinned i && matters c pinned i then i else first_flag c pinned t
   end.
 
-Definition all_flags : list N := [1; 2; 3; 4; 5; 6; 7; 8; 9; 10; 11; 12]%N.
+Definition all_flags : list N := [1; 2; 3; 4; 5; 6; 7; 8; 9; 10; 11; 12; 13]%N.
 
 Fixpoint kind_index (cat kind : string) (ks : list kind_info) (i : N) : N :=
   match ks with
@@ -90,7 +91,7 @@ Fixpoint kind_index (cat kind : string) (ks : list kind_info) (i : N) : N :=
   | k :: t => if String.eqb (k_name k) kind && String.eqb (k_cat k) cat then i else kind_index cat kind t (i + 1)%N
   end.
 
-Definition modelled (kind : string) : bool := in_list kind cv_leaf || String.eqb kind "Pipeline".
+Definition modelled (kind : string) : bool := in_list kind cv_leaf || String.eqb kind "Pipeline" || String.eqb kind "MQTTProxy".
 
 (** deterministic Init panics of the unchanged code (checked in the other direction) *)
 Definition must_init (o : orc) (raw : jvalue) (v : verdict) : bool :=
